@@ -311,14 +311,14 @@ def check_conversion(ctx, W, S0, plan, final_seq, agents, validate, ops, reuse=N
         renamed_conversion(ctx, W, S0, plan, agents, validate, jp)
     # ---- two caller threads convert the same plan, each with its own converter and its own agent order, sharing the
     # domain and problem objects: each must get what it gets alone
-    if not fixture and ctx.s("cfg").chance(1, 5) and len(agents) >= 2:
+    if not fixture and ctx.s("cfg").chance(1, 3) and len(agents) >= 2:
         orders = [list(agents), list(reversed(agents))]
         shared_conv = PlanConverter(d) if ctx.s("cfg").chance(1, 2) else None  # one converter for both threads, or one each
         # the second thread may work on ANOTHER problem of the same domain (the same one plus an object nobody mentions):
         # whatever a conversion needs to know about its problem must not be visible to the other one
         probs = [p, p]
         types_ = [ty for ty in W.D["types"] if ty != "agent" and ty not in W.D.get("implicit_types", ())]
-        if types_ and ctx.s("cfg").chance(1, 2):
+        if types_ and ctx.s("cfg").chance(2, 3):
             import copy
             Wb = copy.copy(W)
             Wb.P = dict(W.P, objects={**W.P["objects"], "znew": types_[ctx.s("cfg").draw(len(types_))]})
